@@ -1,0 +1,69 @@
+//go:build verif
+
+package blockchain
+
+import (
+	"github.com/kardiachain/go-kardia/kai/state/cstate"
+	"github.com/kardiachain/go-kardia/lib/p2p"
+	"github.com/kardiachain/go-kardia/types"
+)
+
+// Exported accessors used only by the verification harness.
+
+// VerifProcessor drives the block-sync processor FSM synchronously with its
+// real processor context (VerifyCommit / SaveBlock / ApplyBlock).
+type VerifProcessor struct{ st *pcState }
+
+// VerifBlockStore and VerifBlockApplier re-export the reactor dependencies.
+type VerifBlockStore = blockStore
+type VerifBlockApplier = blockApplier
+
+func VerifNewProcessor(st blockStore, ex blockApplier, s cstate.LatestBlockState) *VerifProcessor {
+	return &VerifProcessor{st: newPcState(newProcessorContext(st, ex, s))}
+}
+
+// BlockReceived feeds a block as if the scheduler had accepted it from peerID.
+func (p *VerifProcessor) BlockReceived(peerID p2p.ID, block *types.Block) (ev string, err error) {
+	e, err := p.st.handle(scBlockReceived{peerID: peerID, block: block})
+	return verifEventName(e), err
+}
+
+// ProcessBlock triggers one rProcessBlock step. It returns the kind of the
+// resulting event ("noOp", "processed", "verificationFailure", "finished").
+func (p *VerifProcessor) ProcessBlock() (ev string, height uint64, err error) {
+	e, err := p.st.handle(rProcessBlock{})
+	switch e := e.(type) {
+	case pcBlockProcessed:
+		height = e.height
+	case pcBlockVerificationFailure:
+		height = e.height
+	}
+	return verifEventName(e), height, err
+}
+
+func (p *VerifProcessor) Height() uint64                 { return p.st.height() }
+func (p *VerifProcessor) QueueLen() int                  { return len(p.st.queue) }
+func (p *VerifProcessor) Queued(h uint64) bool           { _, ok := p.st.queue[h]; return ok }
+func (p *VerifProcessor) State() cstate.LatestBlockState { return p.st.context.kaiState() }
+
+func verifEventName(e Event) string {
+	switch e.(type) {
+	case pcBlockProcessed:
+		return "processed"
+	case pcBlockVerificationFailure:
+		return "verificationFailure"
+	case pcFinished:
+		return "finished"
+	}
+	return "noOp"
+}
+
+// VerifTryLock reports whether the reactor mutex can be write-locked right now
+// (false means some path returned while still holding it).
+func (r *BlockchainReactor) VerifTryLock() bool {
+	if r.mtx.TryLock() {
+		r.mtx.Unlock()
+		return true
+	}
+	return false
+}
